@@ -12,7 +12,42 @@ use tokio_rustls::rustls::{self, client::danger::{HandshakeSignatureValid, Serve
 
 use super::padding::PANICS;
 
-struct Pair { id: &'static str, cert_pem: String, key_pem: String, der: Vec<u8>, serial: String }
+struct Pair { id: &'static str, cert_pem: String, key_pem: String, key_pem_sec1: String, der: Vec<u8>, serial: String }
+
+// --- minimal DER helpers: re-encode the P-256 PKCS#8 key as a traditional SEC1 "EC PRIVATE KEY" --------
+fn tlv(b: &[u8], pos: usize) -> (u8, usize, usize) {
+    let first = b[pos + 1] as usize;
+    let (len, hdr) = if first < 0x80 { (first, 2) } else { let n = first & 0x7f; let mut l = 0usize; for i in 0..n { l = (l << 8) | b[pos + 2 + i] as usize; } (l, 2 + n) };
+    (b[pos], pos + hdr, pos + hdr + len)
+}
+fn der_enc(tag: u8, content: &[u8]) -> Vec<u8> {
+    let mut out = vec![tag];
+    if content.len() < 0x80 { out.push(content.len() as u8); } else if content.len() < 0x100 { out.push(0x81); out.push(content.len() as u8); } else { out.push(0x82); out.push((content.len() >> 8) as u8); out.push(content.len() as u8); }
+    out.extend_from_slice(content);
+    out
+}
+fn pkcs8_to_sec1(pkcs8: &[u8]) -> Option<Vec<u8>> {
+    let (t, s, _) = tlv(pkcs8, 0); if t != 0x30 { return None; }
+    let (_, _, ver_end) = tlv(pkcs8, s);
+    let (_, _, alg_end) = tlv(pkcs8, ver_end);
+    let (t, is, ie) = tlv(pkcs8, alg_end); if t != 0x04 { return None; }
+    let inner = &pkcs8[is..ie];
+    let (t, s, e) = tlv(inner, 0); if t != 0x30 { return None; }
+    let mut pos = s; let (mut ver, mut prv, mut publ) = (None, None, None);
+    while pos < e { let (t, _, ce) = tlv(inner, pos); match t { 0x02 => ver = Some(inner[pos..ce].to_vec()), 0x04 => prv = Some(inner[pos..ce].to_vec()), 0xa1 => publ = Some(inner[pos..ce].to_vec()), _ => {} } pos = ce; }
+    let oid_p256 = [0x06u8, 0x08, 0x2a, 0x86, 0x48, 0xce, 0x3d, 0x03, 0x01, 0x07];
+    let mut body = ver?; body.extend_from_slice(&prv?); body.extend_from_slice(&der_enc(0xa0, &oid_p256)); if let Some(p) = publ { body.extend_from_slice(&p); }
+    Some(der_enc(0x30, &body))
+}
+fn pem_wrap(label: &str, der: &[u8]) -> String {
+    const T: &[u8; 64] = b"ABCDEFGHIJKLMNOPQRSTUVWXYZabcdefghijklmnopqrstuvwxyz0123456789+/";
+    let mut b64 = String::new();
+    for c in der.chunks(3) { let n = ((c[0] as u32) << 16) | ((*c.get(1).unwrap_or(&0) as u32) << 8) | *c.get(2).unwrap_or(&0) as u32;
+        b64.push(T[(n >> 18) as usize & 63] as char); b64.push(T[(n >> 12) as usize & 63] as char);
+        b64.push(if c.len() > 1 { T[(n >> 6) as usize & 63] as char } else { '=' }); b64.push(if c.len() > 2 { T[n as usize & 63] as char } else { '=' }); }
+    let lines: Vec<&str> = b64.as_bytes().chunks(64).map(|c| std::str::from_utf8(c).unwrap()).collect();
+    format!("-----BEGIN {l}-----\n{}\n-----END {l}-----\n", lines.join("\n"), l = label)
+}
 
 fn make_pair(id: &'static str, expired: bool) -> Pair {
     let mut params = rcgen::CertificateParams::new(vec!["localhost".to_string()]).unwrap();
@@ -22,7 +57,8 @@ fn make_pair(id: &'static str, expired: bool) -> Pair {
     let cert = params.self_signed(&key).unwrap();
     let cert_pem = cert.pem();
     let serial = CertificateInfo::from_pem_bytes(cert_pem.as_bytes()).map(|i| i.serial_number).unwrap_or_default();
-    Pair { id, cert_pem, key_pem: key.serialize_pem(), der: cert.der().to_vec(), serial }
+    let key_pem_sec1 = pkcs8_to_sec1(&key.serialize_der()).map(|d| pem_wrap("EC PRIVATE KEY", &d)).unwrap_or_else(|| key.serialize_pem());
+    Pair { id, cert_pem, key_pem: key.serialize_pem(), key_pem_sec1, der: cert.der().to_vec(), serial }
 }
 
 #[derive(Debug)]
@@ -97,7 +133,10 @@ async fn run_history(log: &Log, r: &mut Rng, pairs: &[Pair], sc: &Value, check_e
             let content: Option<String> = match id.as_str() {
                 "missing" => None,
                 "garbage" => Some((*r.pick(&["", "not a pem file\n", "-----BEGIN CERTIFICATE-----\n!!!!\n-----END CERTIFICATE-----\n", "\u{0}\u{1}\u{2}binary"])).to_string()),
-                x => { let p = pairs.iter().find(|p| p.id == x).unwrap(); let pem = if a == "cert" { &p.cert_pem } else { &p.key_pem }; Some(if whole { pem.clone() } else { truncated(r, pem) }) }
+                x => { let p = pairs.iter().find(|p| p.id == x).unwrap();
+                       // the key is stored in PKCS#8 or in the traditional SEC1 encoding
+                       let pem = if a == "cert" { &p.cert_pem } else if r.chance(1, 2) { &p.key_pem_sec1 } else { &p.key_pem };
+                       Some(if whole { pem.clone() } else { truncated(r, pem) }) }
             };
             match content { None => { let _ = std::fs::remove_file(path); } Some(c) => std::fs::write(path, c).unwrap() }
             ev.push(json!({"ev": "write", "file": a, "id": id, "whole": whole}));
